@@ -23,3 +23,7 @@ func (rcvr *TwoPCReceiver) VerifC01State() (value, oldValue tla.Value, inCritica
 	defer t.leaveMutex("VerifC01State", read)
 	return t.value, t.oldValue, t.criticalSectionState != notInCriticalSection
 }
+
+// VerifPendingAnswers is the number of answers of the nested system that wait in the resource's receive buffer
+// (capacity 1): lets harness C01 see that a late answer to a timed-out request is already buffered.
+func (res *nestedArchetype) VerifPendingAnswers() int { return len(res.receiveCh) }
